@@ -82,7 +82,10 @@ class Codes:
             return o
         c, seal = o
         k = (c, tuple(seal) if seal else None)
-        return self.t.get(k, 'UNKNOWN%r' % (k,))
+        try:
+            return self.t.get(k, 'UNKNOWN%r' % (k,))
+        except TypeError:      # content that was never stored (e.g. edited in place)
+            return 'UNKNOWN%r' % (k,)
 
 
 class Names:
